@@ -49,8 +49,14 @@ pub fn drive(w: &mut dyn Write, data: &[u8], ops: &[Op]) -> Vec<Res> {
             Op::Write(a, b) => w.write(&data[*a..*b]).map(Res::N),
             Op::WriteAll(a, b) => w.write_all(&data[*a..*b]).map(|_| Res::Unit),
             Op::WriteVectored(a, m, b) => {
-                let bufs = [IoSlice::new(&data[*a..*a]), IoSlice::new(&data[*a..*m]), IoSlice::new(&data[*m..*b])];
+                let q = *m + (*b - *m) / 2;
+                let bufs = [IoSlice::new(&data[*a..*a]), IoSlice::new(&data[*a..*m]), IoSlice::new(&data[*m..q]), IoSlice::new(&data[q..*b])];
                 w.write_vectored(&bufs).map(Res::N)
+            }
+            // a piece that is one of C06's literals goes out as `write!(w, "<literal>")` (no run-time arguments)
+            Op::WriteFmt(a, b) if crate::c06::LITERALS.iter().any(|l| l.as_bytes() == &data[*a..*b]) => {
+                let k = crate::c06::LITERALS.iter().position(|l| l.as_bytes() == &data[*a..*b]).unwrap();
+                crate::c06::write_literal(w, k).map(|_| Res::Unit)
             }
             Op::WriteFmt(a, b) => match std::str::from_utf8(&data[*a..*b]) {
                 Ok(s) => {
@@ -429,6 +435,19 @@ fn generate(seed: u64, i: u64, maxlen: usize) -> Gen {
         ops.push(if rng.chance(1, 2) { Op::WriteAll(a, m) } else { Op::Write(a, m) });
         ops.push(Op::WriteFmt(m, data.len()));
         ops.push(Op::WriteAll(a, a + 3));
+    }
+    if i % 7 == 5 {
+        // a literal formatted write that continues what an earlier call began
+        let (pre, k, post) = crate::c06::LITERAL_CONTINUATIONS[rng.below(crate::c06::LITERAL_CONTINUATIONS.len() as u64) as usize];
+        let a = data.len();
+        data.extend_from_slice(pre.as_bytes());
+        let m = data.len();
+        data.extend_from_slice(crate::c06::LITERALS[k].as_bytes());
+        let z = data.len();
+        data.extend_from_slice(post.as_bytes());
+        ops.push(if rng.chance(1, 2) { Op::WriteAll(a, m) } else { Op::Write(a, m) });
+        ops.push(Op::WriteFmt(m, z));
+        ops.push(Op::WriteAll(z, data.len()));
     }
     let script: Vec<Step> = (0..rng.below(20))
         .map(|_| match rng.below(10) {
